@@ -45,6 +45,11 @@ type FuzzCase struct {
 	Subs    []string            `json:"subs,omitempty"`
 	// ReadJSON: the frames are drained with ReadJSON.
 	ReadJSON bool `json:"read_json,omitempty"`
+	// App (frames): what the application does around its reads. Bit 0: it
+	// restores the default handlers with Set...Handler(nil) before reading;
+	// bit 1: it reads the connection as one stream through JoinMessages with a
+	// terminator, and reads that stream a few more times after its first error.
+	App int `json:"app,omitempty"`
 	// DialOpts (dialreply): bit 0 a TLSClientConfig is set (unused for ws://),
 	// bit 1 a cookie Jar, bit 2 a HandshakeTimeout, bit 3 Dial goes through
 	// DialContext with an httptrace.ClientTrace.
@@ -181,8 +186,34 @@ func fuzzFrames(c FuzzCase) (bool, error) {
 			observe("frames: %d automatic replies (pong, close) were written with no write deadline armed: a peer that sends them and never reads blocks the reading application for ever", tr.WritesNoDeadline)
 		}
 	}()
+	if c.App&1 != 0 {
+		conn.SetPingHandler(nil)
+		conn.SetPongHandler(nil)
+		conn.SetCloseHandler(nil)
+	}
 	accepted := 0
 	maxIter := len(c.Data)/2 + 8
+	if c.App&2 != 0 {
+		jr := websocket.JoinMessages(conn, "\n")
+		n, jerr := io.Copy(io.Discard, io.LimitReader(jr, int64(len(c.Data))*1100+1<<16))
+		if jerr == nil && n < int64(len(c.Data))*1100+1<<16 {
+			// io.Copy swallows io.EOF only: the joined stream ended "cleanly",
+			// which it does when NextReader reports io.EOF
+			jerr = io.EOF
+		}
+		for i := 0; i < 3 && jerr != nil; i++ {
+			var b [16]byte
+			if k, e := jr.Read(b[:]); e == nil && k == 0 {
+				// (0, nil) is allowed of an io.Reader, but not for ever
+				continue
+			}
+		}
+		if n > 0 {
+			accepted++
+		}
+		// the joined stream also ends on an error inside a message body (corrupt
+		// deflate data), which leaves the connection usable: the drain goes on
+	}
 	for i := 0; ; i++ {
 		if i > maxIter {
 			return true, fmt.Errorf("frames: %d NextReader calls succeeded on %d input bytes: the reader loops without consuming input", i, len(c.Data))
@@ -579,6 +610,9 @@ func genFuzzCase(t *rapid.T) FuzzCase {
 		}
 		if rapid.IntRange(0, 24).Draw(t, "manyframes") == 0 {
 			rawKind = 98
+		}
+		if rapid.IntRange(0, 3).Draw(t, "app") == 0 {
+			c.App = rapid.IntRange(1, 3).Draw(t, "app_bits")
 		}
 		switch rawKind {
 		case 98:
